@@ -10,7 +10,7 @@ from jmon import actions as A
 from jmon import envs as E
 from jmon.common import Report, key_for, shard_rng
 from jmon.modelapi import DENSE_SPARSE, REQUIRED_FN, SCOPE, ModelCtx, split_problem
-from jmon.props._util import HEAVY, deep_episodes, env_cfg_shards, step_cap
+from jmon.props._util import HEAVY, coincidence_shards, deep_episodes, env_cfg_shards, run_coincidence, step_cap
 from jmon.rollout import POLICIES, Event, Monitor, Runner, run_episode
 
 SHARD_TIMEOUT = {"quick": 1200, "thorough": 3000}
@@ -36,7 +36,10 @@ PROBES = {"C04": "all", "C05": "all", "C09": "some", "C07": "some"}
 
 
 def shards_for(prop: str, tier: str, seed: int = 0) -> List[Dict[str, Any]]:
-    return env_cfg_shards(tier, SCOPE[prop], HEAVY, prop=prop, seed=seed)
+    out = env_cfg_shards(tier, SCOPE[prop], HEAVY, prop=prop, seed=seed)
+    if prop == "C11":
+        out += coincidence_shards(tier, HEAVY)
+    return out
 
 
 class ModelMonitor(Monitor):
@@ -458,6 +461,9 @@ def run_model_shard(prop: str, shard: Dict[str, Any], rep: Report) -> None:
 
     tier, seed, sid = shard["tier"], shard["seed"], shard["id"]
     name, cfg = shard["env"], shard["cfg"]
+    if shard.get("coincide"):
+        run_coincidence(shard, rep, lambda r2, P2: MONITORS[prop](r2, rep, P2))
+        return
     runner = Runner(name, cfg)
     rng = shard_rng(seed, sid)
     P = ModelCtx(name, cfg, rep, env=runner.env, rng=rng)
@@ -469,14 +475,20 @@ def run_model_shard(prop: str, shard: Dict[str, Any], rep: Report) -> None:
     mon = MONITORS[prop](runner, rep, P)
     pols: List[Any] = list(DEFAULT_POLICIES[prop])
     extra = P.call("policies") if P.has("policies") else {}
+    if cfg.get("light"):
+        # very large instances (hundreds of entities: dtype wrap-arounds, buffer limits): three generic episodes, no model
+        # workloads (the solvers behind "complete" policies do not scale to them)
+        pols, extra = pols[:3], {}
     for nm in EXTRA_POLICIES.get(prop, []):
         if nm in extra:
             # a model may ask for more episodes of a workload whose interesting event is rare (e.g. three-way ties)
             w = int(getattr(P.model, "POLICY_WEIGHT", {}).get(nm, 1))
             pols.extend([extra[nm]] * (2 * w))
-    if tier == "thorough":
+    if tier == "thorough" and not cfg.get("light"):
         pols = pols * 3
     cap = step_cap(name, cfg, tier)
+    if cfg.get("light"):
+        cap = max(cap, int(cfg["light"]))
     probe_fn = make_probe_fn(prop, runner, P, rng, tier)
 
     if prop == "C10":
